@@ -63,6 +63,8 @@ class DefaultTrackerHandler(ResultHandler):
         self._constraint_tolerance = constraint_tolerance
         self._sources = set() if sources is None else sources
         self["results"] = None
+        # The tracked optimum in the domain of the optimizer:
+        self._optimal_transformed: FunctionResults | None = None
 
     def handle_event(self, event: Event) -> None:
         """Handle an event.
@@ -80,12 +82,16 @@ class DefaultTrackerHandler(ResultHandler):
             filtered_results: FunctionResults | None = None
             match self._what:
                 case "best":
-                    filtered_results = _update_optimal_result(
-                        self["results"],
+                    if self["results"] is None:
+                        self._optimal_transformed = None
+                    optimal = _update_optimal_result(
+                        self._optimal_transformed,
                         results,
                         transformed_results,
                         self._constraint_tolerance,
                     )
+                    if optimal is not None:
+                        filtered_results, self._optimal_transformed = optimal
                 case "last":
                     filtered_results = _get_last_result(
                         results,
